@@ -55,7 +55,8 @@ def history_lines(dss, ops, probe):
             lines.append("DOPEN %s %s %s" % (o[1], o[2], o[3]))
         elif o[0] == "DQUERY":
             qn += 1
-            lines.append("DQUERY q%d %s %s" % (qn, o[1], core.enc_str(b'a="1"')))
+            # every third query asks for a value that occurs in no row (count 0)
+            lines.append("DQUERY q%d %s %s" % (qn, o[1], core.enc_str(b'a="1"' if qn % 3 else b'a="no-such-value"')))
         else:
             lines.append("DCLOSE %s" % o[1])
     for f in probe:
@@ -85,7 +86,7 @@ def judge(ilines, mlines, counts, live_files):
             return (lab, "no output (process died?)", want)
         if want.startswith("ROWSOF"):
             f = want.split()[1]
-            exp = "DROWS 1 %d |" % counts[f]
+            exp = "DROWS 1 %d |" % (counts[f] if (not lab.startswith("q") or int(lab[1:]) % 3) else 0)
             if got != exp:
                 return (lab, got, "%s (the count of a=\"1\" on %s)" % (exp, f))
         elif got != want:
